@@ -12,6 +12,8 @@ import (
 	"strings"
 	"time"
 
+	"go.uber.org/thriftrw/compile"
+	"go.uber.org/thriftrw/gen"
 	"go.uber.org/thriftrw/plugin/api"
 	"go.uber.org/thriftrw/verifhook"
 	"verifharness/internal/wj"
@@ -38,6 +40,7 @@ type pluginCase struct {
 	Root    string            `json:"root,omitempty"`   // thrift file to compile (relative)
 	Args    []string          `json:"args,omitempty"`   // extra CLI args
 	OutDir  string            `json:"outdir,omitempty"` // relative output dir (default "out")
+	Direct  map[string]string `json:"direct,omitempty"` // mode "direct": files answered by an in-process ServiceGenerator
 }
 
 func installPlugins(dir, fake string, ps []pluginScript) error {
@@ -284,6 +287,91 @@ func runCLI(c pluginCase, fake, thriftrw string, o wj.J) {
 	o["failed"] = code != 0
 }
 
+// directGen is a ServiceGenerator handed to gen.Generate without the process / transport layer in between (the way
+// library users and the plugin API generator use it): nothing has looked at the paths it answers with.
+type directGen struct{ files map[string][]byte }
+
+func (d directGen) Generate(*api.GenerateServiceRequest) (*api.GenerateServiceResponse, error) {
+	return &api.GenerateServiceResponse{Files: d.files}, nil
+}
+
+func runDirect(c pluginCase, o wj.J) {
+	sandbox, _ := os.MkdirTemp("", "c17d")
+	defer os.RemoveAll(sandbox)
+	work := filepath.Join(sandbox, "work")
+	for rel, text := range c.Thrift {
+		p := filepath.Join(work, rel)
+		os.MkdirAll(filepath.Dir(p), 0755)
+		os.WriteFile(p, []byte(text), 0644)
+	}
+	outRel := c.OutDir
+	if outRel == "" {
+		outRel = "out"
+	}
+	outDir := filepath.Join(work, outRel)
+	os.MkdirAll(outDir, 0755)
+	os.WriteFile(filepath.Join(outDir, "keep.txt"), []byte("pre-existing"), 0644)
+	before := listTree(work)
+	files := map[string][]byte{}
+	for p, body := range c.Direct {
+		files[p] = []byte(body)
+	}
+	var genErr error
+	module, err := compile.Compile(filepath.Join(work, c.Root))
+	if err != nil {
+		o["setup"] = err.Error()
+		return
+	}
+	genErr = gen.Generate(module, &gen.Options{OutputDir: outDir, PackagePrefix: "example.com/gen", ThriftRoot: filepath.Join(work, "idl"),
+		NoVersionCheck: true, Plugin: gen.CodeGenerator{ServiceGenerator: directGen{files}}})
+	after := listTree(work)
+	var created, modified, deleted []string
+	for p, h := range after {
+		if bh, ok := before[p]; !ok {
+			created = append(created, p)
+		} else if bh != h {
+			modified = append(modified, p)
+		}
+	}
+	for p := range before {
+		if _, ok := after[p]; !ok {
+			deleted = append(deleted, p)
+		}
+	}
+	sort.Strings(created)
+	sort.Strings(modified)
+	sort.Strings(deleted)
+	nz := func(x []string) []string {
+		if x == nil {
+			return []string{}
+		}
+		return x
+	}
+	var escaped []string
+	filepath.Walk(sandbox, func(p string, info os.FileInfo, err error) error {
+		if err != nil || info.IsDir() {
+			return nil
+		}
+		rel, _ := filepath.Rel(sandbox, p)
+		if !strings.HasPrefix(rel, "work/") {
+			escaped = append(escaped, rel)
+		}
+		return nil
+	})
+	var outside []string
+	for _, p := range created {
+		if !strings.HasPrefix(p, outRel+"/") {
+			outside = append(outside, p)
+		}
+	}
+	o["created"], o["modified"], o["deleted"], o["escaped"], o["created_outside"] = nz(created), nz(modified), nz(deleted), nz(escaped), nz(outside)
+	o["outrel"] = outRel
+	o["failed"] = genErr != nil
+	if genErr != nil {
+		o["code"], o["stderr"] = 1, genErr.Error()
+	}
+}
+
 func cmdC16(args []string) error {
 	c := newCommon("c16")
 	fake := c.fs.String("fakeplugin", "", "path of the fakeplugin binary")
@@ -309,6 +397,9 @@ func cmdC16(args []string) error {
 		o["panic"] = safelyLong(func() {
 			if pc.Mode == "cli" {
 				runCLI(pc, *fake, *thriftrw, o)
+			} else if pc.Mode == "direct" {
+				runDirect(pc, o)
+				o["mode"] = "cli" // judged by the file-system predicates of the CLI mode
 			} else {
 				runInproc(pc, *fake, o)
 			}
